@@ -163,8 +163,13 @@ def nm_units(q):
     return q._get_non_multiplicative_units()
 
 
+LOG_SUB_DELTA = [True]     # defect switch F92 as probed on the implementation (set by run)
+
+
 def addsub_tag(qa, qb, sub):
     """the if / elif chain of _add_sub evaluated with the implementation's own predicates"""
+    def subok(q, n):
+        return LOG_SUB_DELTA[0] or not q._get_unit_definition(n).is_logarithmic
     if qa is None:
         return "AEarly"
     if not hasattr(qb, "_units"):
@@ -180,9 +185,9 @@ def addsub_tag(qa, qb, sub):
         if qa._get_delta_units() and not qb._get_delta_units():
             return "AMultToOther"
         return "AMultToSelf"
-    if sub and len(na) == 1 and qa._units[na[0]] == 1 and not qb._has_compatible_delta(na[0]):
+    if sub and len(na) == 1 and qa._units[na[0]] == 1 and subok(qa, na[0]) and not qb._has_compatible_delta(na[0]):
         return "ASubOffLeft"
-    if sub and len(nb) == 1 and qb._units[nb[0]] == 1 and not qa._has_compatible_delta(nb[0]):
+    if sub and len(nb) == 1 and qb._units[nb[0]] == 1 and subok(qb, nb[0]) and not qa._has_compatible_delta(nb[0]):
         return "ASubOffRight"
     if len(na) == 1 and qa._units[na[0]] == 1 and qb._has_compatible_delta(na[0]):
         return "AOffDelta"
@@ -345,7 +350,9 @@ def run(ck):
     units, lines = make_units(rng, n_gen)
     by = {u.name: u for u in units}
     regs = build_registries(lines)
-    HEADER = header(lines, probe_quirks(ck))
+    qk = probe_quirks(ck)
+    LOG_SUB_DELTA[0] = qk["F92"]
+    HEADER = header(lines, qk)
     cases, descs = [], []
     seen_terms = set()
     fails = []
@@ -639,7 +646,7 @@ def run(ck):
         arr = rng.random() < 0.3
         xs, o, rp = do_conv(a.name, b.name, mode, arr, "generated")
         conv_oracles(a, b, xs, o, rp, regs[mode])
-        for op in rng.sample(BIN[:4], 1 if rng.random() < 0.5 else 2) + ([rng.choice(BIN[4:])] if rng.random() < 0.25 else []):
+        for op in rng.sample(BIN[:4], rng.choice([0, 1, 1, 2])) + ([rng.choice(BIN[4:])] if rng.random() < 0.2 else []):
             mode = rng.choice(modes_all)
             arr = rng.random() < 0.3
             xs, ys, o, rp, _ = do_bin(op, a.name, b.name, mode, arr, "generated")
@@ -666,7 +673,7 @@ def run(ck):
     # 3. per unit: numbers as operands (both orders), powers, unary, root units, predicates
     per_unit = units if not thorough else defaults + rng.sample(gens, 120)
     for u in per_unit:
-        for mode in modes_all:
+        for mode in (modes_all if not u.generated else rng.sample(modes_all, 2)):
             reg, auto = regs[mode], mode[0]
             for arr in (False, True):
                 for op in BIN:
@@ -882,12 +889,21 @@ def run(ck):
     ck.extra["model_vs_impl_cases"] = len(cases)
     ck.extra["model_vs_impl_disagreements"] = None if bad is None else len(bad)
     ck.extra["generated_definitions"] = lines[:5] + (["..."] if len(lines) > 5 else [])
-    seen = set()
+    # every failing key that a listed finding matches is recorded (no file is written for those); of the
+    # remaining ones at most 3 per family (the key without its unit names) get a replay file
+    seen, per_family = set(), {}
     for key, desc, rp in fails:
-        if key not in seen:
-            seen.add(key)
-            ck.violation(key, desc, rp)
+        if key in seen:
+            continue
+        seen.add(key)
+        if ck._match_known(key) is None:
+            fam = key.rsplit(":", 1)[0]
+            per_family[fam] = per_family.get(fam, 0) + 1
+            if per_family[fam] > 3:
+                continue
+        ck.violation(key, desc, rp)
     ck.extra["oracle_failures"] = len(fails)
+    ck.extra["oracle_failures_by_family"] = per_family
     if bad:
         ck.broken.append(f"correspondence OffsetRun.c06_ok: {len(bad)} disagreements, first: {descs[bad[0]]}")
         if not fails:
